@@ -26,10 +26,10 @@ Theorem C04_rule_agrees : forall (r : rule) (s : str),
   forallb snake_char s = true -> (r = RCamel -> has_letter s = true) -> apply_rule r s = Ok (spec_name r s).
 Proof. exact rule_agrees. Qed.
 
-(* for every spelling the quantifier lists, outside the two spelling classes, the analysis
+(* for every spelling the quantifier lists, outside the one remaining spelling class (bare Window), the analysis
    classifies a parameter type as Tauri does: injected (no key), channel (a key), value (a key) *)
 Theorem C04_kinds : forall t : aty,
-  ty_dom t = true -> ty_bare_window t = false -> ty_short_request t = false ->
+  ty_dom t = true -> ty_bare_window t = false ->
   match spec_kind t with
   | KInjected => is_injected t = true /\ channel_of t = false
   | KChannel => is_injected t = true /\ channel_of t = true
@@ -79,24 +79,20 @@ Theorem C04_oracle_accepts : forall (cf : cfg) (m : mode) (c : cmd),
   exists g l, generate cf m c = Ok g /\ invoke_keys g = Some l /\ optional_ok cf c l = true.
 Proof. exact oracle_accepts. Qed.
 
-(* the four remaining classes: an in-domain witness lying in that class only, on which the faithful
+(* the three remaining classes: an in-domain witness lying in that class only, on which the faithful
    model delivers a wrong key set in both modes *)
 Theorem C04_bare_window_refuted :
   cmd_dom w_window = true /\ only_class 0 cfg_default w_window = true /\
   bad cfg_default Plain w_window = true /\ bad cfg_default Zod w_window = true.
 Proof. exact refuted_bare_window. Qed.
-Theorem C04_short_request_refuted :
-  cmd_dom w_request = true /\ only_class 1 cfg_default w_request = true /\
-  bad cfg_default Plain w_request = true /\ bad cfg_default Zod w_request = true.
-Proof. exact refuted_short_request. Qed.
 Theorem C04_macro_case_refuted :
-  cmd_dom w_macro = true /\ only_class 2 cfg_default w_macro = true /\
+  cmd_dom w_macro = true /\ only_class 1 cfg_default w_macro = true /\
   bad cfg_default Plain w_macro = true /\ bad cfg_default Zod w_macro = true.
 Proof. exact refuted_macro_case. Qed.
 (* a parameter named with underscores only under camelCase: no panic any more, but the key is the
    name itself where Tauri (heck) deserialises the empty string *)
 Theorem C04_underscore_name_refuted :
-  cmd_dom w_underscore = true /\ only_class 3 cfg_default w_underscore = true /\
+  cmd_dom w_underscore = true /\ only_class 2 cfg_default w_underscore = true /\
   bad cfg_default Plain w_underscore = true /\ bad cfg_default Zod w_underscore = true /\
   spec_keys cfg_default w_underscore = [([], false); (L "userId", false)] /\
   option_map kb_of (match generate cfg_default Plain w_underscore with Ok g => invoke_keys g | Panic => None end)
@@ -109,6 +105,14 @@ Theorem C04_ipc_channel_fixed :
   spec_keys cfg_default w_ipc_channel = [(L "onEvent", false); (L "jobId", false)].
 Proof. exact fixed_ipc_channel. Qed.
 
+(* repaired (C04-3-request-with-lifetime): Request<'_> and ipc::Request<'_> are injected; the former witness passes *)
+Theorem C04_short_request_fixed :
+  cmd_dom w_request = true /\ kf_any cfg_default w_request = false /\
+  good cfg_default Plain w_request = true /\ good cfg_default Zod w_request = true /\
+  spec_keys cfg_default w_request = [(L "userId", false)] /\
+  cmd_dom w_request_ipc = true /\ good cfg_default Plain w_request_ipc = true /\ good cfg_default Zod w_request_ipc = true.
+Proof. exact fixed_short_request. Qed.
+
 (* non-vacuity: a command mixing every kind of parameter meets the premises, and the result is not trivial *)
 Definition ex_cmd : cmd := {| c_name := L "stream_items"; c_macro_case := None;
   c_params := [ mkp "app_handle" (APath [STauri] NAppHandle None);
@@ -118,7 +122,8 @@ Definition ex_cmd : cmd := {| c_name := L "stream_items"; c_macro_case := None;
                 mkp "page_size" (APath [] NOption (Some [GType]));
                 mkp "win" (APath [] NWindow (Some [GType]));
                 mkp "req" (APath [STauri; SIpc] NRequest (Some [GLife]));
-                mkp "log_ch" (APath [SIpc] NChannel (Some [GType])) ] |}.
+                mkp "log_ch" (APath [SIpc] NChannel (Some [GType]));
+                mkp "raw_req" (APath [] NRequest (Some [GLife])) ] |}.
 Example C04_ex_premises :
   cmd_dom ex_cmd = true /\ kf_any cfg_default ex_cmd = false /\
   kf_any {| default_case := L "SCREAMING-KEBAB-CASE" |} ex_cmd = false.
@@ -147,7 +152,7 @@ Print Assumptions C04_zod_split.
 Print Assumptions C04_never_panics.
 Print Assumptions C04_oracle_accepts.
 Print Assumptions C04_bare_window_refuted.
-Print Assumptions C04_short_request_refuted.
 Print Assumptions C04_macro_case_refuted.
 Print Assumptions C04_underscore_name_refuted.
 Print Assumptions C04_ipc_channel_fixed.
+Print Assumptions C04_short_request_fixed.
